@@ -7,7 +7,13 @@
 //! VIOLATION, INCONCLUSIVE, NOTE, EXHAUSTIVE) parsed by ./check.
 //! Exit status: 0 no violation, 1 violation(s), 2 usage error.
 mod c04;
+mod c10;
+mod c11;
+mod c12;
+mod faultio;
 mod objs;
+mod selfcheck;
+mod streams;
 mod util;
 
 use util::Rep;
@@ -44,9 +50,30 @@ fn main() {
             }
         }
     }
+    if tier != "miri" && matches!(prop.as_str(), "C07" | "C08" | "C09" | "C10" | "C11" | "C12") {
+        match selfcheck::ciphers() {
+            Ok(n) => eprintln!("cipher models agree with {} frozen vectors", n),
+            Err(e) => {
+                println!("INCONCLUSIVE\tmodel self-check failed: {}", e);
+                std::process::exit(3);
+            }
+        }
+    }
     let rep: Rep = match (prop.as_str(), &replay) {
         ("C04", None) => c04::run(&tier, seed),
         ("C04", Some(a)) => c04::replay(a),
+        ("C07", None) => streams::run_add(streams::vanilla_kind(), &tier, seed),
+        ("C07", Some(a)) => streams::replay_add(streams::vanilla_kind(), a),
+        ("C08", None) => streams::run_add(streams::tbc_kind(), &tier, seed),
+        ("C08", Some(a)) => streams::replay_add(streams::tbc_kind(), a),
+        ("C09", None) => streams::run_wrath(&tier, seed),
+        ("C09", Some(a)) => streams::replay_wrath(a),
+        ("C10", None) => c10::run(&tier, seed),
+        ("C10", Some(a)) => c10::replay(a),
+        ("C11", None) => c11::run(&tier, seed),
+        ("C11", Some(a)) => c11::replay(a, seed),
+        ("C12", None) => c12::run(&tier, seed),
+        ("C12", Some(a)) => c12::replay(a),
         _ => {
             eprintln!("unknown property {}", prop);
             std::process::exit(2);
